@@ -202,6 +202,9 @@ func (g *genState) genTx(v *view, a int) mtx {
 func (g *genState) genOp(v *view) op {
 	r := g.r
 	n := len(g.w.addrs)
+	if n <= 4 && r.Chance(4) {
+		return g.genMreset(v)
+	}
 	switch r.Weighted([]int{34, 10, 16, 16, 5, 8, 7, 4}) {
 	case 0, 1: // single remote / local
 		o := op{kind: "add", local: false}
@@ -368,6 +371,62 @@ func (g *genState) genOp(v *view) op {
 	default:
 		return op{kind: "promote"}
 	}
+}
+
+// genMreset: head changes cur->A, A->B, B->C delivered while the run for cur->A is still busy; C is a sibling of B,
+// a sibling of A (shorter branch) or a child of B.
+func (g *genState) genMreset(v *view) op {
+	r := g.r
+	n := len(g.w.addrs)
+	o := op{kind: "mreset", shape: r.Weighted([]int{45, 35, 20}), gls: [3]uint64{v.d.MaxGas, v.d.MaxGas, v.d.MaxGas}}
+	if r.Chance(20) {
+		o.gls[r.Intn(3)] = []uint64{100000, 60000, 30000, 200000}[r.Intn(4)]
+	}
+	cur := map[int][2]uint64{}
+	for a := 0; a < n; a++ {
+		addr := g.w.addrs[a]
+		cur[a] = [2]uint64{v.d.StateNonces[addr], v.d.StateBalances[addr].Uint64()}
+	}
+	step := func(base map[int][2]uint64, lowerOK bool) (map[int][2]uint64, [][3]uint64) {
+		next := map[int][2]uint64{}
+		var ch [][3]uint64
+		for a := 0; a < n; a++ {
+			nb := base[a]
+			if r.Chance(65) {
+				pn := v.d.PendingNonces[g.w.addrs[a]]
+				switch r.Weighted([]int{45, 25, 15, 15}) {
+				case 0:
+					nb[0] += uint64(r.Range(1, 2)) // a block mined some of the account's transactions
+				case 1:
+					if pn > nb[0] {
+						nb[0] = pn
+					}
+				case 2:
+					if lowerOK && nb[0] > 0 {
+						nb[0]--
+					}
+				case 3:
+					nb[1] = genBalance(r)
+				}
+				ch = append(ch, [3]uint64{uint64(a), nb[0], nb[1]})
+			}
+			next[a] = nb
+		}
+		return next, ch
+	}
+	stA, chA := step(cur, false)
+	stB, chB := step(stA, false)
+	o.chA, o.chB = chA, chB
+	switch o.shape {
+	case 0:
+		_, o.chC = step(stA, true)
+	case 1:
+		_, o.chC = step(cur, true)
+	case 2:
+		_, o.chC = step(stB, false)
+	}
+	g.dist([]string{"mreset-sibling-equal-height", "mreset-shorter-branch", "mreset-growing"}[o.shape])
+	return o
 }
 
 func min64(a, b uint64) uint64 {
